@@ -1017,6 +1017,7 @@ func TestC18(t *testing.T) {
 		}
 	})
 	rec.Suite("values", n, func(c *ev.Case) { runValue(c, family[c.I%len(family)]) })
+	rec.Suite("fan-out", rec.N(400, 40000), func(c *ev.Case) { fanOutRound(c, g) })
 	// a dictionary load that fails part-way must not take away what worked before: the same
 	// shapes against a private parser, before and after a load that restates the whole
 	// generated dictionary and then hits a data type with a typo
@@ -1075,6 +1076,72 @@ func goTypeFor(k refcodec.Kind) (reflect.Type, bool) {
 // and used for messages of several applications in turn: the AVP a tag name
 // produces must be the one the dictionary resolves for the message's own
 // application, whatever the type was used with before.
+// fanOutRound: one struct value marshalled into two messages (a relay fanning a request out to
+// two next hops), each of which then gets AVPs of its own.  The struct's first field that yields
+// AVPs is a []*diam.AVP with spare capacity, the layout in which a Marshal that adopts the
+// caller's slice instead of copying it would let the two messages share a backing array.
+func fanOutRound(c *ev.Case, ctx *lib.Ctx) {
+	type fan struct {
+		A []*diam.AVP `avp:"G-U32"`
+		S string      `avp:"G-UTF8"`
+		B []*diam.AVP `avp:"G-U64"`
+	}
+	r := c.R
+	sig := func(op string) ev.Sig { return ev.Sig{"op": op, "shape": "fan-out"} }
+	na := 1 + r.IntN(3)
+	src := fan{A: make([]*diam.AVP, 0, na+1+r.IntN(4)), S: fmt.Sprintf("s%d", c.I)}
+	for i := 0; i < na; i++ {
+		src.A = append(src.A, diam.NewAVP(9009, 0x40, 0, datatype.Unsigned32(uint32(100+i))))
+	}
+	if r.IntN(2) == 0 {
+		src.S = "" // nothing but the slice
+		src.B = append(make([]*diam.AVP, 0, 4), diam.NewAVP(9010, 0x40, 0, datatype.Unsigned64(7)))
+	}
+	c.Class("fan-out/slice-len=%d/other-fields=%v", na, src.S != "")
+	var ms [2]*diam.Message
+	for k := range ms {
+		ms[k] = diam.NewMessage(8388000, diam.RequestFlag, 0, uint32(k+1), 2, ctx.Parser)
+		if err := ms[k].Marshal(&src); err != nil {
+			c.Fail(sig("marshal-error"), nil, nil, "Marshal: %v", err)
+			return
+		}
+	}
+	base := len(ms[0].AVP)
+	for k := range ms {
+		ms[k].NewAVP(9001, 0x40, 0, datatype.OctetString(fmt.Sprintf("hop-%d", k)))
+		ms[k].NewAVP(9007, 0x40, 0, datatype.Integer32(int32(k)))
+	}
+	for k := range ms {
+		wire, err := ms[k].Serialize()
+		if err != nil || int(ms[k].Header.MessageLength) != len(wire) {
+			c.Fail(sig("marshal-length"), nil, nil, "copy %d of a struct marshalled into two messages: Serialize err=%v, Header.MessageLength=%d, %d bytes", k, err, ms[k].Header.MessageLength, len(wire))
+			return
+		}
+		rm, err := diam.ReadMessage(bytes.NewReader(wire), ctx.Parser)
+		if err != nil {
+			c.Fail(sig("read"), wire, nil, "copy %d: ReadMessage: %v", k, err)
+			return
+		}
+		if len(rm.AVP) != base+2 {
+			c.Fail(sig("marshal-avps"), wire, nil, "copy %d has %d AVPs, the struct yields %d and two were added", k, len(rm.AVP), base)
+			return
+		}
+		hop, _ := rm.AVP[base].Data.(datatype.OctetString)
+		idx, _ := rm.AVP[base+1].Data.(datatype.Integer32)
+		if string(hop) != fmt.Sprintf("hop-%d", k) || int(idx) != k {
+			c.Fail(sig("marshal-avps"), wire, nil, "a struct was marshalled into two messages and each got AVPs of its own: copy %d carries %q / %d (the other copy's AVPs?)", k, hop, idx)
+			return
+		}
+		for i := 0; i < na; i++ {
+			if v, _ := rm.AVP[i].Data.(datatype.Unsigned32); rm.AVP[i].Code != 9009 || uint32(v) != uint32(100+i) {
+				c.Fail(sig("marshal-avps"), wire, nil, "copy %d: AVP %d is code %d value %v, the struct's slice holds G-U32 %d", k, i, rm.AVP[i].Code, rm.AVP[i].Data, 100+i)
+				return
+			}
+		}
+	}
+	c.Event("roundtrips", 2)
+}
+
 // freshTypeRound: see suite concurrent-first-use.
 func freshTypeRound(c *ev.Case, rec *ev.Rec, ctx *lib.Ctx) {
 	r := c.R
